@@ -429,11 +429,17 @@ def eval_constexpr(data, call_node):
             if scope == "":
                 code += funcs
             else:
-                code += f"class {scope}:\n"
-                for line in funcs.splitlines():
-                    code += "    " + line + "\n"
+                # a library module gets a namespace of its own, in which its constexpr
+                # functions see each other by their bare names
+                code += f"{scope} = __module({scope!r}, {funcs!r}, globals())\n"
             code += "\n"
         data.constexpr_functions_code = code
+
+    call_code = call_node.as_string()
+    call_module = get_scope_name(call_node).split(".")[0]
+    if call_module != "" and call_module in data.constexpr_functions:
+        # a call inside a library module is evaluated in that module's namespace
+        call_code = f"eval({call_code!r}, vars({call_module}))"
 
     code = f"""
 from stationeers_pytrapic.symbols import *
@@ -447,14 +453,21 @@ def constexpr(f):
     
 def emit_code(f):
     return f
-    
+
+def __module(name, source, env):
+    import types as __types
+    module = __types.ModuleType(name)
+    module.__dict__.update(env)
+    exec(source, module.__dict__)
+    return module
+
 {data.constexpr_functions_code}
 
-__result = __json.dumps({call_node.as_string()})
+__result = __json.dumps({call_code})
 
 """
     if not _is_pyodide:
-        code += f"\nprint(__json.dumps({call_node.as_string()}))\n"
+        code += f"\nprint(__json.dumps({call_code}))\n"
     if code in _eval_constexpr_cache:
         return _eval_constexpr_cache[code]
 
